@@ -2,7 +2,7 @@
 EXTENDS ExtFsck, Json
 CONSTANT MaxDev
 VARIABLE t
-Init == t \in {x \in ParamDims : Deviations(x) <= MaxDev}
+Init == t \in {x \in ParamDims : Deviations(x) <= MaxDev \/ Always(x)}
 Next == UNCHANGED t
 Spec == Init /\ [][Next]_t
 Emit == PrintT(<<"BEH", ToJson(t)>>)
